@@ -1143,6 +1143,147 @@ def eval_seq_case(K: dict, case: dict, out: Out) -> None:
 
 
 # ------------------------------------------------------------------------------------------------
+# what the handlers RECEIVE: one real processing cycle (process_resource_causes) with several
+# change handlers, whole-object and field= mixed, under the all_at_once / asap lifecycles
+
+SIG_KW = {"site": "execution.execute_handlers_once/invoke_handler",
+          "shape": "old/new/diff received by a handler are not those of its field (or of the whole object)"}
+
+LOOP_FIELDS = [None, None, "spec", "spec.field", "spec.n", "spec.a", "spec.a.b", "spec.list", "metadata.labels", "metadata.labels.app",
+               "spec.missing.deep", ["spec", "k.dot"], "data"]
+
+
+def gen_loop_case(rng: random.Random) -> dict:
+    spec_old = {"field": gen_value(rng, 3), "n": rng.choice(INTS), "a": {"b": gen_scalar(rng), "c": rng.choice(INTS)},
+                "list": [gen_scalar(rng) for _ in range(rng.choice([0, 1, 2]))], "k.dot": gen_scalar(rng)}
+    old = {"apiVersion": "kopf.dev/v1", "kind": "KopfExample",
+           "metadata": {"name": "obj", "namespace": "ns", "uid": "u1", "resourceVersion": "7",
+                        "labels": {"app": rng.choice(["a", "b"]), "tier": "x"}},
+           "spec": spec_old, "data": {"k": rng.choice(UNI_STRS)}}
+    new = copy.deepcopy(old)
+    tags: list[str] = []
+    for _ in range(rng.choice([1, 2, 2, 3, 4])):
+        root = rng.choice(["spec", "spec", "spec", "data", "labels"])
+        if root == "labels":
+            new["metadata"]["labels"] = mutate(rng, new["metadata"]["labels"], tags)
+            if not isinstance(new["metadata"]["labels"], dict):
+                new["metadata"]["labels"] = {"app": "c"}
+            new["metadata"]["labels"] = {k: v for k, v in new["metadata"]["labels"].items() if isinstance(v, str)}
+        else:
+            new[root] = mutate(rng, new[root], tags) if isinstance(new[root], dict) else {"k": "v2"}
+            if not isinstance(new[root], dict):
+                new[root] = {"replaced": True}
+    hs = []
+    for i in range(rng.choice([2, 3, 3, 4, 5])):
+        hs.append({"id": f"h{i}", "deco": rng.choice(["update", "update", "field"]), "field": rng.choice(LOOP_FIELDS)})
+    for h in hs:
+        if h["deco"] == "field" and h["field"] is None:
+            h["field"] = "spec"
+    return {"kind": "cycle", "old": old, "new": new, "handlers": hs,
+            "lifecycle": rng.choice(["all_at_once", "all_at_once", "all_at_once", "asap", "shuffled", "one_by_one"]),
+            "lseed": rng.getrandbits(32)}
+
+
+def _loop_env():
+    import kopf
+    from kopf._cogs.configs import configuration
+    from kopf._cogs.structs import references
+    from kopf._core.actions import lifecycles
+    from kopf._core.engines import indexing
+    from kopf._core.intents import registries
+    from kopf._core.reactor import inventory, processing
+    return locals()
+
+
+async def _run_cycle(K: dict, E: dict, case: dict, calls: list) -> dict:
+    import logging
+    kopf = E["kopf"]
+    registry = E["registries"].OperatorRegistry()
+    settings = E["configuration"].OperatorSettings()
+    settings.posting.enabled = False
+    resource = E["references"].Resource("kopf.dev", "v1", "kopfexamples", namespaced=True)
+
+    def mk(hid: str):
+        async def fn(old, new, diff, **_: Any) -> None:
+            calls.append({"id": hid, "old": copy.deepcopy(old), "new": copy.deepcopy(new), "diff": canon_items(diff)})
+        fn.__name__ = hid
+        return fn
+    for h in case["handlers"]:
+        f = tuple(h["field"]) if isinstance(h["field"], list) else h["field"]
+        if h["deco"] == "field":
+            kopf.on.field("kopf.dev", "v1", "kopfexamples", id=h["id"], field=f, registry=registry)(mk(h["id"]))
+        else:
+            kopf.on.update("kopf.dev", "v1", "kopfexamples", id=h["id"], field=f, registry=registry)(mk(h["id"]))
+    ds, ps = settings.persistence.diffbase_storage, settings.persistence.progress_storage
+    extra = registry._changing.get_extra_fields(resource=resource)
+    B, P = K["bodies"].Body, K["patches"].Patch
+    e_old = ps.clear(essence=ds.build(body=B(case["old"]), extra_fields=extra))
+    patch = P()
+    ds.store(body=B(case["new"]), patch=patch, essence=copy.deepcopy(e_old))
+    body = merge_patch(case["new"], json.loads(json.dumps(dict(patch))))
+    e_old = json.loads(json.dumps(e_old))            # what the operator will read back
+    e_new = ps.clear(essence=ds.build(body=B(body), extra_fields=extra))
+    logger = logging.getLogger("verif.c04.loop")
+    logger.setLevel(logging.CRITICAL)
+    random.seed(case["lseed"])                         # lifecycles.shuffled/randomized use the global PRNG
+    lifecycle = getattr(E["lifecycles"], case["lifecycle"])
+    memory = E["inventory"].ResourceMemory()
+    await E["processing"].process_resource_causes(
+        lifecycle=lifecycle, indexers=E["indexing"].OperatorIndexers(), registry=registry, settings=settings,
+        resource=resource, raw_event={"type": "MODIFIED", "object": body}, body=B(body), patch=P(), memory=memory,
+        local_logger=logger, event_logger=logger, stream_pressure=None, operator_paused=None, consistency_time=None)
+    return {"e_old": e_old, "e_new": e_new, "body": body}
+
+
+def eval_loop_cases(K: dict, cases: list[dict], out: Out) -> None:
+    import asyncio
+    E = _loop_env()
+
+    async def main() -> None:
+        for case in cases:
+            calls: list = []
+            try:
+                ctxv = await _run_cycle(K, E, case, calls)
+            except tuple(ERRS) as ex:
+                out.count("cycle", f"raised {type(ex).__name__}")
+                continue
+            _judge_cycle(K, case, ctxv, calls, out)
+    asyncio.run(main())
+
+
+def _judge_cycle(K: dict, case: dict, ctxv: dict, calls: list, out: Out) -> None:
+    out.evals += 1
+    replay = {"kind": "cycle", "old": case["old"], "new": case["new"], "handlers": case["handlers"],
+              "lifecycle": case["lifecycle"], "lseed": case["lseed"]}
+    e_old, e_new = ctxv["e_old"], ctxv["e_new"]
+    whole = canon_items(K["diffs"].diff(e_old, e_new))
+    out.count("cycle_lifecycle", case["lifecycle"])
+    out.count("cycle_calls", min(len(calls), 6))
+    by_id = {h["id"]: h for h in case["handlers"]}
+    for pos, c in enumerate(calls):
+        h = by_id[c["id"]]
+        f = parse_field(h["field"])
+        exp_old, exp_new = py_resolve(e_old, f) if f else e_old, py_resolve(e_new, f) if f else e_new
+        rp = dict(replay, call=c, position=pos, calls_before=[x["id"] for x in calls[:pos]], essence_old=e_old, essence_new=e_new)
+        out.count("cycle_handler", ("field" if f else "whole") + ("" if pos == 0 else " after " +
+                  ("field" if parse_field(by_id[calls[pos - 1]["id"]]["field"]) else "whole")))
+        bad = None
+        if not strict_eq(c["old"], exp_old) or not strict_eq(c["new"], exp_new):
+            bad = "old/new"
+        elif not equiv_strict(py_apply(c["diff"], c["old"]), c["new"]) and not only_boolint(py_apply(c["diff"], c["old"]), c["new"]):
+            bad = "diff does not lead from old to new"
+        elif (not c["diff"]) != equiv_strict(c["old"], c["new"]) and not only_boolint(c["old"], c["new"]):
+            bad = "diff empty iff unchanged"
+        if bad:
+            out.fail("oracle", f"handler {c['id']} (field={h['field']!r}, #{pos + 1} of the cycle, lifecycle {case['lifecycle']}) "
+                               f"received wrong kwargs: {bad}", rp, SIG_KW)
+            return
+        out.ask("kwargs diff of a handler vs. reduce of the whole diff", ["C04.reduce", whole, f], c["diff"], rp)
+    if calls:
+        out.keys.add(digest(["cycle", case["handlers"], case["lifecycle"], case["old"], case["new"]]))
+
+
+# ------------------------------------------------------------------------------------------------
 # shards, run, search, replay
 
 def run_shard(args: tuple) -> Out:
@@ -1157,6 +1298,7 @@ def run_shard(args: tuple) -> Out:
         eval_ess_case(K, gen_ess_case(rng), out)
     for _ in range(max(1, n_pairs // 25)):
         eval_seq_case(K, gen_seq_case(rng), out)
+    eval_loop_cases(K, [gen_loop_case(rng) for _ in range(max(2, n_pairs // 12))], out)
     if not oracle_only:
         settle(out)
     out.requests, out.expect = [], []
@@ -1248,6 +1390,8 @@ def eval_case(K: dict, case: dict, out: Out) -> None:
                           "body": case["body"], "wseed": case.get("wseed", 0), "writes": case.get("writes")}, out)
     elif case.get("kind") == "sequence":
         eval_seq_case(K, case, out)
+    elif case.get("kind") == "cycle":
+        eval_loop_cases(K, [case], out)
     else:
         raise ValueError(f"unknown case kind {case.get('kind')!r}")
 
@@ -1291,7 +1435,7 @@ def search(ctx: Ctx, broken: list) -> None:
     out = Out()
     for b in broken:
         inp = b.replay.get("input") if isinstance(b.replay, dict) else None
-        if isinstance(inp, dict) and inp.get("kind") in ("diff", "essence", "sequence"):
+        if isinstance(inp, dict) and inp.get("kind") in ("diff", "essence", "sequence", "cycle"):
             try:
                 eval_case(K, inp, out)
             except Exception:  # noqa: BLE001
@@ -1318,7 +1462,7 @@ def replay(ctx: Ctx, data: dict) -> None:
         print("broken obligation(s):", sorted(set(data.get("what", []))))
     if isinstance(case, dict) and "input" in case and "kind" not in case:
         case = case["input"]
-    if not isinstance(case, dict) or case.get("kind") not in ("diff", "essence", "sequence"):
+    if not isinstance(case, dict) or case.get("kind") not in ("diff", "essence", "sequence", "cycle"):
         print("this replay file names a broken proof/tie obligation without a concrete input; re-run ./check C04 quick")
         ctx.tie_fail("broken obligation without input", data)
         return
